@@ -22,7 +22,14 @@ if [ "$SKIP" != "--skip-suite" ]; then
   echo "suite with change: $SUM" >> $LOG
   if grep -q "failed" <<<"$SUM"; then echo "RESULT existing suite FAILS with the change" | tee -a $LOG; grep -E "^\s+FAIL" $D/suite.log | head -5 >> $LOG; fi
 fi
-DEMO=$(python3 -c "import json,sys; print(json.load(open('$D/meta.json')).get('demo_cmd',''))")
+DEMO=$(python3 - "$D/meta.json" <<'PY'
+import json,sys,re
+c=json.load(open(sys.argv[1])).get('demo_cmd','')
+if isinstance(c,list): c=' && '.join(c)
+m=re.search(r'cargo (test|run)[^()&;|]*', c)
+print(m.group(0).strip() if m else c)
+PY
+)
 if [ -f $D/demo.patch ]; then git apply $D/demo.patch 2>>$LOG || echo "demo.patch does not apply" >> $LOG; fi
 echo "demo cmd: $DEMO" >> $LOG
 ( cd $WT && eval "$DEMO" ) > $D/demo_with.log 2>&1; W=$?
